@@ -322,6 +322,17 @@ TRUSTED_BASE = [
     "real event loop and to_thread, per-read values); by hand / differential remain: that decide_policy / decide_policyset / the compiled closure are "
     "the model's (C02_whole / C03_whole are not instantiated into the outcome parameters), that the real compiler returns a function for the policies "
     "used (probed), step granularity and atomicity (C09_shape)",
+    "harness/pytolean_lint.py and lean/Rbacx/Model/PyLint.lean (C17, linter): trusted to render the Python subset of dsl/lint.py's analyze_policy / "
+    "analyze_policyset faithfully — a `for` over range / enumerate / an iterable with break and continue as `forStep` over the carried variables "
+    "(found by a liveness analysis: assigned in the body and live at the loop head), an `if` that cannot leave by return/break/continue as a phi over the "
+    "variables it assigns that are live afterwards, `x.append(e)` / `x[k] = e` on a local list / a local `dict(…)` copy as rebinding (no aliasing), the "
+    "FIRST PASS (the first top-level `for` and the `for`s right after it) as an external function of the variables it reads whose one result is "
+    "`issues`, `_actions` / `_resource_covers` / `_first_applicable_unreachable` as function parameters, `set(a) & set(b)` in a test as 'some member of a "
+    "equals some member of b' (hashable members), `xs[i]` without IndexError, `.get` on a non-dict as None (rules / children are dicts), "
+    "`str(x).lower()` = the oracle's text lower-cased on ASCII letters (the result is only compared with ASCII literals that contain no `k`). "
+    "Validated against CPython on every run (Run/SrcEvalLint.lean vs the real analyze_policy / analyze_policyset on the algorithm-dependent issues); "
+    "`_resource_covers` (existing pytolean) and `_first_applicable_unreachable` (`set(e)` = the list of its members, `issubset`) are translated and "
+    "proved equal to the model helpers (Run/C17_lint_helpers_translated.lean); the helper model Lint.actions (`_actions`) is tied only by that differential run",
 ]
 
 
